@@ -1,0 +1,92 @@
+//go:build verif
+
+package defers
+
+// Machine-checked contracts (comment-only; build tag `verif`); read by /verif/govc.
+
+// C16: stacks are compared lexicographically on (Block, Ins); stack sets are
+// sorted, duplicate-free slices; union and the defer transfer are exact.
+
+//@ spec entryLess(x InstrIndices, y InstrIndices) bool = x.Block < y.Block || (x.Block == y.Block && x.Ins < y.Ins)
+//@ spec samePrefix(a Stack, b Stack, n int) bool = forall j int :: 0 <= j && j < n ==> a[j] == b[j]
+//@ spec lexLess(a Stack, b Stack) bool = exists k int :: 0 <= k && k <= len(a) && k <= len(b) && samePrefix(a, b, k) && ((k == len(a) && k < len(b)) || (k < len(a) && k < len(b) && entryLess(a[k], b[k])))
+//@ spec sameStack(a Stack, b Stack) bool = len(a) == len(b) && samePrefix(a, b, len(a))
+
+//@ func stackCompare
+//@   property C16
+//@   pure
+//@   reads elems(InstrIndices)
+//@   safety
+//@   ensures eq: result == 0 <==> sameStack(a, b)
+//@   ensures lt: result < 0 <==> lexLess(a, b)
+//@   ensures gt: result > 0 <==> lexLess(b, a)
+//@   loop i invariant 0 <= i && i <= len(a) && i <= len(b) && samePrefix(a, b, i)
+//@   loop i decreases len(a) - i
+
+// Order laws of stackCompare, derived from its (verified) contract only.
+//@ property C16
+//@ lemma cmp_refl: forall a Stack :: stackCompare(a, a) == 0
+//@ lemma cmp_antisym: forall a Stack, b Stack :: (stackCompare(a, b) < 0 <==> stackCompare(b, a) > 0) && (stackCompare(a, b) == 0 <==> stackCompare(b, a) == 0)
+//@ lemma cmp_eq_content: forall a Stack, b Stack :: stackCompare(a, b) == 0 <==> sameStack(a, b)
+//@ lemma cmp_trans_lt: forall a Stack, b Stack, c Stack :: stackCompare(a, b) < 0 && stackCompare(b, c) < 0 ==> stackCompare(a, c) < 0
+//@ lemma cmp_trans_eq_lt: forall a Stack, b Stack, c Stack :: stackCompare(a, b) == 0 && stackCompare(b, c) < 0 ==> stackCompare(a, c) < 0
+//@ lemma cmp_trans_lt_eq: forall a Stack, b Stack, c Stack :: stackCompare(a, b) < 0 && stackCompare(b, c) == 0 ==> stackCompare(a, c) < 0
+//@ lemma cmp_trans_eq: forall a Stack, b Stack, c Stack :: stackCompare(a, b) == 0 && stackCompare(b, c) == 0 ==> stackCompare(a, c) == 0
+
+// A stack set is a slice of stacks strictly sorted by stackCompare (hence duplicate-free).
+//@ spec sortedStrict(s StackSet) bool = forall i int, j int :: 0 <= i && i < j && j < len(s) ==> stackCompare(s[i], s[j]) < 0
+//@ spec hasId(x Stack, s StackSet, n int) bool = exists j int :: 0 <= j && j < n && s[j] == x
+//@ spec hasEq(x Stack, s StackSet, n int) bool = exists j int :: 0 <= j && j < n && stackCompare(s[j], x) == 0
+//@ spec belowAll(r StackSet, x Stack) bool = forall k int :: 0 <= k && k < len(r) ==> stackCompare(r[k], x) < 0
+
+// stackSetUnion: the result is sorted; it contains exactly the stacks of a and b
+// (every stack of a by identity, every stack of b up to stackCompare-equality);
+// sameAsA tells whether every stack of b already occurs in a.
+//@ func stackSetUnion
+//@   property C16
+//@   opaque stackCompare
+//@   requires sorted_a: sortedStrict(a)
+//@   requires sorted_b: sortedStrict(b)
+//@   ensures sorted{sorted}: sortedStrict(r)
+//@   ensures sound{sound,bounds,exit2}: forall k int :: 0 <= k && k < len(r) ==> hasId(r[k], a, len(a)) || hasId(r[k], b, len(b))
+//@   ensures complete_a{complete_a,bounds,exit2}: forall i int :: 0 <= i && i < len(a) ==> hasId(a[i], r, len(r))
+//@   ensures complete_b{complete_b,bounds,exit2}: forall i int :: 0 <= i && i < len(b) ==> hasEq(b[i], r, len(r))
+//@   ensures same_as_a{same,bounds,exit2}: sameAsA <==> (forall i int :: 0 <= i && i < len(b) ==> hasEq(b[i], a, len(a)))
+//@   loop 1 invariant bounds{bounds}: 0 <= aIndex && aIndex <= len(a) && 0 <= bIndex && bIndex <= len(b)
+//@   loop 1 invariant fresh{fresh}: isfresh(r)
+//@   loop 1 invariant frame_a{fresh,frame_a}: forall i int :: 0 <= i && i < len(a) ==> a[i] == old(a[i])
+//@   loop 1 invariant frame_b{fresh,frame_b}: forall i int :: 0 <= i && i < len(b) ==> b[i] == old(b[i])
+//@   loop 1 invariant sorted{bounds,fresh,frame_a,frame_b,sorted,below_a,below_b,cmp_antisym}: sortedStrict(r)
+//@   loop 1 invariant below_a{sorted_a,bounds,fresh,frame_a,frame_b,below_a,cmp_antisym,cmp_trans_lt,cmp_trans_lt_eq,cmp_trans_eq_lt}: aIndex < len(a) ==> belowAll(r, a[aIndex])
+//@   loop 1 invariant below_b{sorted_b,bounds,fresh,frame_a,frame_b,below_b,cmp_antisym,cmp_trans_lt,cmp_trans_lt_eq,cmp_trans_eq_lt}: bIndex < len(b) ==> belowAll(r, b[bIndex])
+//@   loop 1 invariant sound{bounds,fresh,frame_a,frame_b,sound}: forall k int :: 0 <= k && k < len(r) ==> hasId(r[k], a, aIndex) || hasId(r[k], b, bIndex)
+//@   loop 1 invariant complete_a{bounds,fresh,frame_a,frame_b,complete_a}: forall i int :: 0 <= i && i < aIndex ==> hasId(a[i], r, len(r))
+//@   loop 1 invariant complete_b{bounds,fresh,frame_a,frame_b,complete_b,cmp_refl,cmp_antisym}: forall i int :: 0 <= i && i < bIndex ==> hasEq(b[i], r, len(r))
+//@   loop 1 invariant same{sorted_a,bounds,fresh,frame_a,frame_b,same,complete_a,below_b,cmp_antisym,cmp_trans_lt,cmp_trans_eq_lt,cmp_trans_lt_eq}: sameAsA <==> (forall i int :: 0 <= i && i < bIndex ==> hasEq(b[i], a, len(a)))
+//@   loop 1 decreases len(a) - aIndex + len(b) - bIndex
+//@   loop 2 invariant exit1{exit1,bounds}: aIndex < len(a) ==> bIndex == len(b)
+//@   loop 2 invariant bounds{exit1,bounds}: 0 <= aIndex && aIndex <= len(a) && 0 <= bIndex && bIndex <= len(b)
+//@   loop 2 invariant fresh{fresh}: isfresh(r)
+//@   loop 2 invariant frame_a{fresh,frame_a}: forall i int :: 0 <= i && i < len(a) ==> a[i] == old(a[i])
+//@   loop 2 invariant frame_b{fresh,frame_b}: forall i int :: 0 <= i && i < len(b) ==> b[i] == old(b[i])
+//@   loop 2 invariant sorted{exit1,bounds,fresh,frame_a,frame_b,sorted,below_a,below_b,cmp_antisym}: sortedStrict(r)
+//@   loop 2 invariant below_a{exit1,sorted_a,bounds,fresh,frame_a,frame_b,below_a,cmp_antisym,cmp_trans_lt,cmp_trans_lt_eq,cmp_trans_eq_lt}: aIndex < len(a) ==> belowAll(r, a[aIndex])
+//@   loop 2 invariant below_b{exit1,sorted_b,bounds,fresh,frame_a,frame_b,below_b,cmp_antisym,cmp_trans_lt,cmp_trans_lt_eq,cmp_trans_eq_lt}: bIndex < len(b) ==> belowAll(r, b[bIndex])
+//@   loop 2 invariant sound{exit1,bounds,fresh,frame_a,frame_b,sound}: forall k int :: 0 <= k && k < len(r) ==> hasId(r[k], a, aIndex) || hasId(r[k], b, bIndex)
+//@   loop 2 invariant complete_a{exit1,bounds,fresh,frame_a,frame_b,complete_a}: forall i int :: 0 <= i && i < aIndex ==> hasId(a[i], r, len(r))
+//@   loop 2 invariant complete_b{exit1,bounds,fresh,frame_a,frame_b,complete_b,cmp_refl,cmp_antisym}: forall i int :: 0 <= i && i < bIndex ==> hasEq(b[i], r, len(r))
+//@   loop 2 invariant same{exit1,sorted_a,bounds,fresh,frame_a,frame_b,same,complete_a,below_b,cmp_antisym,cmp_trans_lt,cmp_trans_eq_lt,cmp_trans_lt_eq}: sameAsA <==> (forall i int :: 0 <= i && i < bIndex ==> hasEq(b[i], a, len(a)))
+//@   loop 2 decreases len(a) - aIndex
+//@   loop 3 invariant exit2{exit2,exit1,bounds}: aIndex == len(a)
+//@   loop 3 invariant bounds{exit2,bounds}: 0 <= aIndex && aIndex <= len(a) && 0 <= bIndex && bIndex <= len(b)
+//@   loop 3 invariant fresh{fresh}: isfresh(r)
+//@   loop 3 invariant frame_a{fresh,frame_a}: forall i int :: 0 <= i && i < len(a) ==> a[i] == old(a[i])
+//@   loop 3 invariant frame_b{fresh,frame_b}: forall i int :: 0 <= i && i < len(b) ==> b[i] == old(b[i])
+//@   loop 3 invariant sorted{exit2,bounds,fresh,frame_a,frame_b,sorted,below_a,below_b,cmp_antisym}: sortedStrict(r)
+//@   loop 3 invariant below_a{exit2,sorted_a,bounds,fresh,frame_a,frame_b,below_a,cmp_antisym,cmp_trans_lt,cmp_trans_lt_eq,cmp_trans_eq_lt}: aIndex < len(a) ==> belowAll(r, a[aIndex])
+//@   loop 3 invariant below_b{exit2,sorted_b,bounds,fresh,frame_a,frame_b,below_b,cmp_antisym,cmp_trans_lt,cmp_trans_lt_eq,cmp_trans_eq_lt}: bIndex < len(b) ==> belowAll(r, b[bIndex])
+//@   loop 3 invariant sound{exit2,bounds,fresh,frame_a,frame_b,sound}: forall k int :: 0 <= k && k < len(r) ==> hasId(r[k], a, aIndex) || hasId(r[k], b, bIndex)
+//@   loop 3 invariant complete_a{exit2,bounds,fresh,frame_a,frame_b,complete_a}: forall i int :: 0 <= i && i < aIndex ==> hasId(a[i], r, len(r))
+//@   loop 3 invariant complete_b{exit2,bounds,fresh,frame_a,frame_b,complete_b,cmp_refl,cmp_antisym}: forall i int :: 0 <= i && i < bIndex ==> hasEq(b[i], r, len(r))
+//@   loop 3 invariant same{exit2,sorted_a,bounds,fresh,frame_a,frame_b,same,complete_a,below_b,cmp_antisym,cmp_trans_lt,cmp_trans_eq_lt,cmp_trans_lt_eq}: sameAsA <==> (forall i int :: 0 <= i && i < bIndex ==> hasEq(b[i], a, len(a)))
+//@   loop 3 decreases len(b) - bIndex
